@@ -14,6 +14,7 @@ from symfc.utils.permutation_tools import (
 from symfc.utils.solver_funcs import get_batch_slice
 from symfc.utils.utils import get_indep_atoms_by_lat_trans
 from symfc.utils.utils_O4 import get_atomic_lat_trans_decompr_indices_O4
+from symfc.utils._verif_hooks import _verif_override
 
 
 def _N3N3N3N3_to_NNNNand3333(combs: np.ndarray, N: int) -> np.ndarray:
@@ -121,6 +122,7 @@ def compr_permutation_lat_trans_O4(
     # order = 3
     if n_batch is None:
         n_batch3 = 1 if natom <= 128 else int(round((natom / 128) ** 2))
+    n_batch3 = _verif_override("PERM_NBATCH", n_batch3)
 
     combinations = get_combinations(
         natom, order=3, fc_cutoff=fc_cutoff, indep_atoms=indep_atoms
@@ -177,6 +179,7 @@ def compr_permutation_lat_trans_O4(
     # order = 4
     if n_batch is None:
         n_batch4 = 1 if natom <= 16 else int(round((natom / 16) ** 2))
+    n_batch4 = _verif_override("PERM_NBATCH", n_batch4)
 
     combinations = get_combinations(
         natom, order=4, fc_cutoff=fc_cutoff, indep_atoms=indep_atoms
